@@ -630,6 +630,12 @@ def c17(tier):
     stat = [c for c in catalogue(3, positive=True) if c["k"] in ("WelfordOnline", "Vst", "Vsct", "WelfordRolling", "HLNormalizer", "CorrelationTrendIndicator",
                                                                 "CenterOfGravity", "NoiseEliminationTechnology", "Rsi", "MyRSI", "Sma", "Alma")]
     run.submit(p2_job, "twin-3sym", {"cfgs": stat, "inputs": [1, 3, 2], "unit": 1, "slots": 4, "depth": 99, "steps": 4}, "C17", exhaustive=True, gen="SFTwin")
+    # longer behaviours at window 4 (a clone taken while a hand-rolled Clone would have to rebuild run lengths, held values, extrema)
+    stateful = [c for c in catalogue(4, positive=True) if c["k"] in ("Rsi", "MyRSI", "WelfordOnline", "Vst", "Vsct", "Roc", "HLNormalizer", "Min", "Max",
+                                                                    "CenterOfGravity", "CorrelationTrendIndicator", "Alma", "BinaryEntropy", "Sma", "Cumulative",
+                                                                    "EhlersFisherTransform", "PolarizedFractalEfficiency", "CyberCycle", "TrendFlex", "LaguerreRSI")]
+    run.submit(p2_job, "twin-long", {"cfgs": stateful, "inputs": [1, 2], "unit": 1, "slots": 4, "depth": 99, "steps": 6 if tier == "quick" else 7, "nopoll": True},
+               "C17", exhaustive=True, gen="SFTwin")
     chn = chains2(catalogue(2, positive=True), sma(2))
     run.submit(p2_job, "twin-chains", {"cfgs": chn, "inputs": [1, 2], "unit": 1, "slots": 4, "depth": 99, "steps": 4}, "C17", exhaustive=True, gen="SFTwin")
     # exhaustive small depth on two slots: every interleaving of new/update/last/clone/drop
